@@ -357,6 +357,102 @@ def clause_key_decode(facts, rep):
     rep.require(n >= 1, 'C10: key decode site of GetOnDemand not found')
 
 
+def clause_escape_carry(facts, rep, nss):
+    """SkipString: when the last full vector ended inside an escape (prev_escaped != 0), the escaped byte - whatever
+    it is - is stepped over exactly once before the scalar tail starts scanning.  All paths of the hand-over between
+    the vector loop and the scalar loop are enumerated under prev_escaped != 0; a branch on the *content* of the input
+    is explored both ways (the escaped byte may be any byte), a pure bounds test may skip the step."""
+    n = 0
+    for f in facts.functions:
+        if f.short != 'SkipString' or not any(ns in f.qn for ns in nss):
+            continue
+        heads = [bid for bid, B in f.blocks.items() if B.get('term') and B['term'].get('cls') in ('WhileStmt', 'ForStmt') and B['term'].get('cond') is not None]
+        # order by distance from the entry
+        dist = {f.entry: 0}
+        work = [f.entry]
+        while work:
+            b = work.pop(0)
+            for x in f.blocks[b]['succs']:
+                if x is not None and x not in dist:
+                    dist[x] = dist[b] + 1
+                    work.append(x)
+        heads = sorted([h for h in heads if h in dist], key=lambda h: dist[h])
+        rep.require(len(heads) >= 2, 'C10: vector and scalar loops of SkipString not found')
+        if len(heads) < 2:
+            continue
+        vec, tail = heads[0], heads[1]
+        rep.fn(f)
+        pe = None
+        posid = [p_['id'] for p_ in f.params if p_.get('name') == 'pos']
+        for bid, i, s in f.stmts():
+            s_ = strip(s)
+            if s_ is not None and s_.get('k') == 'decl':
+                for vd in s_['vars']:
+                    if vd.get('name') == 'prev_escaped':
+                        pe = vd['id']
+        # the carried escape state: the variable passed by reference to GetEscaped in the vector loop
+        for bid, i, s, e in f.walk():
+            if e.get('k') == 'call' and e.get('cname') == 'GetEscaped' and e.get('args'):
+                a = strip(e['args'][0])
+                if a is not None and a.get('k') == 'ref':
+                    pe = a['id']
+        rep.require(pe is not None and posid, 'C10: escape carry / cursor of SkipString not bound')
+        if pe is None or not posid:
+            continue
+        posid = posid[0]
+        start = f.blocks[vec]['succs'][1]
+        results = []
+
+        def steps_in(B):
+            k = 0
+            for st in B['stmts']:
+                for y in walk(st):
+                    if y.get('k') == 'un' and y['op'] == '++' and strip(y['e']).get('id') == posid:
+                        k += 1
+                    if y.get('k') == 'bin' and y['op'] == '+=' and strip(y['l']).get('id') == posid:
+                        k += cval(y['r']) if cval(y['r']) is not None else 99
+            return k
+
+        def rec(b, steps, bounds_skipped, depth, trail):
+            if depth > 12:
+                raise AnalysisBroken('C10: hand-over of SkipString does not reach the scalar loop')
+            if b == tail:
+                results.append((steps, bounds_skipped, trail))
+                return
+            B = f.blocks[b]
+            steps += steps_in(B)
+            t = B.get('term')
+            succs = B['succs']
+            if t and t.get('cond') is not None and len(succs) == 2:
+                c = strip_expect(t['cond'])
+                ids = set(y.get('id') for y in walk(c) if y.get('k') == 'ref')
+                derefs = any(y.get('k') in ('sub',) or (y.get('k') == 'un' and y['op'] == '*') for y in walk(c))
+                if ids == {pe} and not derefs:
+                    # prev_escaped != 0 is the world we explore
+                    from ..narrowing import _eval as ev1
+                    v = bool(ev1(c, {pe: 1}))
+                    rec(succs[0] if v else succs[1], steps, bounds_skipped, depth + 1, trail + [show(c)])
+                elif derefs:
+                    rec(succs[0], steps, bounds_skipped, depth + 1, trail + [show(c) + ' true'])
+                    rec(succs[1], steps, bounds_skipped, depth + 1, trail + ['not ' + show(c)])
+                else:
+                    # a test without input content: bounds.  Not stepping is acceptable on its failing side only
+                    rec(succs[0], steps, bounds_skipped, depth + 1, trail + [show(c) + ' true'])
+                    rec(succs[1], steps, True, depth + 1, trail + ['not ' + show(c)])
+                return
+            for x in succs:
+                if x is not None:
+                    rec(x, steps, bounds_skipped, depth + 1, trail)
+        if start is not None:
+            rec(start, 0, False, 0, [])
+        rep.require(len(results) >= 1, 'C10: no hand-over path found in SkipString')
+        bad = [(st, tr) for st, sk, tr in results if not sk and st != 1]
+        n += 1
+        rep.check(not bad, 'E2.escape-carry', f.qn, 'the escaped byte carried out of the vector loop is stepped over exactly once on all %d hand-over paths' % len(results), f.loc,
+                  'path [%s] advances the cursor by %s' % ('; '.join(bad[0][1]), bad[0][0]) if bad else '', facts.config)
+    rep.require(n >= 1, 'C10: SkipString not found')
+
+
 def run(rep, tier):
     configs = ['K1'] if tier == 'quick' else ['K1', 'K3', 'K4']
     for cfg in configs:
@@ -368,6 +464,7 @@ def run(rep, tier):
         clause_wrapper(facts, rep)
         clause_array_end(facts, rep)
         clause_key_decode(facts, rep)
+        clause_escape_carry(facts, rep, {'K1': ('::avx2::',), 'K3': ('::sse::',), 'K4': ('::avx2::', '::sse::')}[cfg])
     rep.trust('clang 14 front end')
     rep.assumptions += [
         'decides only: wrong-kind step and negative index yield an error, an index past the end of an array is noticed at the closing bracket, escaped keys are decoded before comparison whenever they could match, errors are negated, slice cleared on error, target parsed only on success',
